@@ -1358,6 +1358,147 @@ def _drop_dead_helpers(tree, inl):
             fn._sa_inlined_everywhere = True
 
 
+EAGER_CONSUMERS = {'list', 'tuple', 'sorted', 'sum', 'set', 'frozenset', 'dict', 'min', 'max'}        # run the generator to exhaustion before anything else happens
+LAZY_CONSUMERS = {'any', 'all', 'enumerate', 'zip', 'map', 'filter', 'next', 'iter'}                      # interleave with / cut short the generator: its body must be pure
+GEN_PURE_CALLS = {'range', 'len', 'zip', 'enumerate', 'isinstance', 'reversed', 'tuple', 'list', 'getattr', 'hasattr', 'int', 'float', 'abs', 'min', 'max', 'sorted', 'type', 'id'}
+
+
+def _private_generators_to_lists(tree):
+    """a private generator function (module level or method) whose every use is consumed eagerly becomes a list builder:
+         def _g(..): ... yield e ... yield from it ...   ->   def _g(..): __out = [] ... __out.append(e) ... __out.extend(it) ... return __out
+    Valid when laziness is unobservable: the generator's body writes nothing but its own locals and calls only pure builtins / other private generators, and every
+    call is an argument of an eager consumer (list, tuple, sorted, sum, ...), a starred argument, the iterable of a for loop / comprehension, or `yield from`."""
+    parents = {}
+    for n in ast.walk(tree):
+        for c in ast.iter_child_nodes(n):
+            parents[id(c)] = n
+    gens = {}
+    for n in ast.walk(tree):
+        if isinstance(n, ast.FunctionDef) and n.name.startswith('_') and not n.name.startswith('__') and not n.decorator_list:
+            own = [x for x in _walk_fn_own(n)]
+            if any(isinstance(x, (ast.Yield, ast.YieldFrom)) for x in own):
+                gens.setdefault(n.name, []).append(n)
+    gens = {k: v[0] for k, v in gens.items() if len(v) == 1}
+    if not gens:
+        return False
+
+    def body_ok(fn, pure):
+        for x in _walk_fn_own(fn):
+            if isinstance(x, (ast.Attribute, ast.Subscript)) and isinstance(x.ctx, (ast.Store, ast.Del)):
+                return False
+            if isinstance(x, (ast.Global, ast.Nonlocal, ast.Try, ast.With, ast.Await, ast.FunctionDef, ast.Lambda, ast.ClassDef)) and x is not fn:
+                return False
+            if isinstance(x, ast.Yield):
+                par = parents.get(id(x))
+                if not isinstance(par, ast.Expr) or x.value is None:
+                    return False            # value of a yield expression used: a coroutine, not a producer
+            if isinstance(x, ast.YieldFrom) and not isinstance(parents.get(id(x)), ast.Expr):
+                return False
+            if isinstance(x, ast.Return) and x.value is not None:
+                return False
+            if isinstance(x, ast.Call):
+                f = x.func
+                if isinstance(f, ast.Name) and (f.id in GEN_PURE_CALLS or f.id in gens):
+                    continue
+                if isinstance(f, ast.Attribute) and f.attr in ('items', 'values', 'keys') and not x.args:
+                    continue
+                if isinstance(f, ast.Attribute) and isinstance(f.value, ast.Name) and f.value.id in ('self', 'cls') and f.attr in gens:
+                    continue
+                if not pure:
+                    continue
+                nm = _np_name(f)
+                if nm is not None and not nm.endswith('.at') and nm not in ('copyto', 'put', 'put_along_axis', 'place', 'putmask', 'fill_diagonal', 'random.shuffle') \
+                        and not any(k.arg == 'out' for k in x.keywords):
+                    continue
+                if isinstance(f, ast.Attribute) and isinstance(f.value, ast.Name) and f.value.id == 'math':
+                    continue
+                return False
+            if isinstance(x, ast.Name) and x.id == '__out':
+                return False
+        return True
+
+    def uses_ok(name, fn):
+        """None: some use keeps the generator object; 'eager': every use exhausts it at once; 'lazy': some use interleaves with it"""
+        kind = 'eager'
+        for x in ast.walk(tree):
+            hit = (isinstance(x, ast.Name) and x.id == name) or (isinstance(x, ast.Attribute) and x.attr == name)
+            if not hit:
+                continue
+            call = parents.get(id(x))
+            if not (isinstance(call, ast.Call) and call.func is x):
+                return None
+            user = parents.get(id(call))
+            if isinstance(user, ast.Call) and call in user.args and isinstance(user.func, ast.Name) and user.func.id in EAGER_CONSUMERS:
+                continue
+            if isinstance(user, ast.Call) and call in user.args and isinstance(user.func, ast.Attribute) and user.func.attr in ('join', 'extend', 'update'):
+                continue
+            if isinstance(user, ast.Starred):
+                continue
+            if isinstance(user, ast.Call) and call in user.args and isinstance(user.func, ast.Name) and user.func.id in LAZY_CONSUMERS and user.func.id not in ('next', 'iter'):
+                kind = 'lazy'
+                continue
+            if isinstance(user, (ast.For, ast.comprehension)) and user.iter is call:
+                kind = 'lazy'
+                continue
+            if isinstance(user, ast.YieldFrom):
+                kind = 'lazy'
+                continue
+            return None
+        return kind
+    done = False
+    todo = {}
+    for k, v in gens.items():
+        u = uses_ok(k, v)
+        if u is not None and body_ok(v, pure=(u == 'lazy')):
+            todo[k] = v
+    # a generator that delegates to one that stays lazy stays lazy too
+    for _ in range(len(todo) + 1):
+        for k, fn in list(todo.items()):
+            for x in _walk_fn_own(fn):
+                if isinstance(x, ast.Call):
+                    f = x.func
+                    nm = f.id if isinstance(f, ast.Name) else (f.attr if isinstance(f, ast.Attribute) else None)
+                    if nm in gens and nm not in todo:
+                        todo.pop(k, None)
+    for name, fn in todo.items():
+        class T(ast.NodeTransformer):
+            def visit_FunctionDef(self, n):
+                return self.generic_visit(n) if n is fn else n
+
+            def visit_Lambda(self, n):
+                return n
+
+            def visit_Expr(self, n):
+                v = n.value
+                if isinstance(v, ast.Yield):
+                    return ast.copy_location(ast.Expr(value=ast.Call(func=ast.Attribute(value=ast.Name(id='__out', ctx=ast.Load()), attr='append', ctx=ast.Load()), args=[v.value], keywords=[])), n)
+                if isinstance(v, ast.YieldFrom):
+                    return ast.copy_location(ast.Expr(value=ast.Call(func=ast.Attribute(value=ast.Name(id='__out', ctx=ast.Load()), attr='extend', ctx=ast.Load()), args=[v.value], keywords=[])), n)
+                return n
+
+            def visit_Return(self, n):
+                return ast.copy_location(ast.Return(value=ast.Name(id='__out', ctx=ast.Load())), n)
+        T().visit(fn)
+        doc = 1 if fn.body and isinstance(fn.body[0], ast.Expr) and isinstance(fn.body[0].value, ast.Constant) and isinstance(fn.body[0].value.value, str) else 0
+        fn.body.insert(doc, ast.Assign(targets=[ast.Name(id='__out', ctx=ast.Store())], value=ast.List(elts=[], ctx=ast.Load())))
+        if not isinstance(fn.body[-1], ast.Return):
+            fn.body.append(ast.Return(value=ast.Name(id='__out', ctx=ast.Load())))
+        ast.fix_missing_locations(fn)
+        done = True
+    return done
+
+
+def _walk_fn_own(fn):
+    """nodes of fn's own body (nested defs / lambdas are reported but not entered)"""
+    stack = list(fn.body)
+    while stack:
+        n = stack.pop()
+        yield n
+        if isinstance(n, (ast.FunctionDef, ast.AsyncFunctionDef, ast.Lambda, ast.ClassDef)):
+            continue
+        stack.extend(ast.iter_child_nodes(n))
+
+
 def _split_chained_assignments(tree):
     """a = b = E  ->  a = E ; b = a        (plain names; E is evaluated once, the targets are bound left to right)"""
     class T(ast.NodeTransformer):
@@ -1444,6 +1585,7 @@ def normalize_module(tree, modname):
     spell = Spelling(methods=modname in KERNEL_MODULES)
     spell.operator_aliases = tuple(a.asname or a.name for n_ in ast.walk(tree) if isinstance(n_, ast.Import) for a in n_.names if a.name == 'operator')
     _split_chained_assignments(tree)
+    _private_generators_to_lists(tree)
     spell.visit(tree)
     apply_simple_decorators(tree)
     inl = Inliner(tree)
